@@ -192,6 +192,22 @@ macro_rules! c06_cfg {
             calls.store(0, Ordering::SeqCst);
             let ran = observe(|| {
                 let mut r = circuit.runner();
+                if fault.kind == "free_lane" {
+                    // hook H3: the part of a permutation's input state that is not read from the
+                    // witness (zero padding, chained capacity / rate) is the prover's to choose
+                    let cnt = Arc::new(AtomicUsize::new(0));
+                    let fired2 = fired.clone();
+                    let (target, lane, delta) = (fault.call, fault.mode as usize, fault.k.max(1));
+                    r.set_verif_free_state_tamper(Box::new(move |_op, st: &mut [EF]| {
+                        let k = cnt.fetch_add(1, Ordering::SeqCst);
+                        if k == target {
+                            if let Some(x) = st.get_mut(lane) {
+                                *x += EF::from(BF::from_u64(delta));
+                                fired2.fetch_add(1, Ordering::SeqCst);
+                            }
+                        }
+                    }));
+                }
                 r.set_public_inputs(&rep.publics).map_err(|e| format!("{e:?}"))?;
                 r.run().map_err(|e| format!("{e:?}"))
             });
@@ -251,6 +267,12 @@ macro_rules! c06_cfg {
 }
 c06_cfg!(case_kb4, kb4, crate::uni::Kb4);
 c06_cfg!(case_bb4, bb4, crate::uni::Bb4);
+c06_cfg!(case_kb5q1, kb5q1, crate::uni::Kb5q);
+
+/// (limbs of the permutation state, rate limbs) as the executor sees them
+pub fn state_shape(cfg: &str) -> (usize, usize) {
+    if cfg == "kb5q1" { (16, 8) } else { (4, 2) }
+}
 
 /// C12 gadget arm: a G-prog program (decompose_to_bits / decompose_ext_to_base_coeffs on public
 /// inputs, ALU recomposition) compiled without non-primitive tables, hints swapped, proven, verified.
@@ -346,7 +368,11 @@ pub fn gadget_program<U: CircuitUni>(rng: &mut Rng) -> crate::gprog::Program {
 }
 
 pub fn run_case(cfg: &str, h: &History, f: &Fault, seed: u64) -> Result<CaseOut, String> {
-    match observe(|| if cfg == "bb4" { case_bb4(h, f, seed) } else { case_kb4(h, f, seed) }) {
+    match observe(|| match cfg {
+        "bb4" => case_bb4(h, f, seed),
+        "kb5q1" => case_kb5q1(h, f, seed),
+        _ => case_kb4(h, f, seed),
+    }) {
         Ok(r) => r,
         Err(p) => Err(format!("panic: {p}")),
     }
@@ -374,7 +400,21 @@ pub fn judge(prop: &str, cfg: &str, f: &Fault, o: &CaseOut) -> Option<(String, S
     if prop == "C06" {
         if let Some(d) = &o.sample_diff {
             let mode = ["replace", "reset", "choose"][f.mode.min(2) as usize];
-            let site = if f.kind.starts_with("perm") { format!("{}_{mode}", f.kind) } else { f.kind.clone() };
+            // a differing sample that is a recomposed extension element (5 coordinates printed,
+            // not all but the first zero) names the path the deviation took
+            let via_ext = d.split("native").next().is_some_and(|c| {
+                let nums: Vec<&str> = c.split('[').nth(1).unwrap_or("").split(']').next().unwrap_or("").split(',').map(|x| x.trim()).collect();
+                nums.len() > 1 && nums[1..].iter().any(|x| *x != "0")
+            });
+            let site = if f.kind == "perm_rate" && via_ext {
+                format!("{}_{mode}_via_sample_ext", f.kind)
+            } else if f.kind.starts_with("perm") {
+                format!("{}_{mode}", f.kind)
+            } else if f.kind == "free_lane" {
+                format!("free_lane_{}", if (f.mode as usize) < state_shape(cfg).1 { "rate" } else { "capacity" })
+            } else {
+                f.kind.clone()
+            };
             return Some((format!("{site}:{cfg}"), format!("proof ACCEPTED although a sampled challenge differs from the native transcript ({d}); fault {f:?}")));
         }
     } else if let Some(n) = &o.noncanonical {
@@ -474,7 +514,7 @@ pub fn one_run(ctx: &Ctx, prop: &str, idx: u64, out: &mut RunOut) {
         }
     }
     let mut rng = Rng::new(ctx.seed, prop, idx);
-    let cfg = if idx % 2 == 0 { "kb4" } else { "bb4" };
+    let cfg = if prop == "C06" { ["kb4", "bb4", "kb5q1"][(idx % 3) as usize] } else if idx % 2 == 0 { "kb4" } else { "bb4" };
     let (order, d, rate) = crate::props::c05::cfg_params(cfg);
     let h = gen_history_for(prop, &mut rng, order, d, rate, ctx.tier.pick(12, 24));
     let seed = mix(mix(ctx.seed, idx), 7);
@@ -508,6 +548,13 @@ pub fn one_run(ctx: &Ctx, prop: &str, idx: u64, out: &mut RunOut) {
         }
         for call in 0..3usize {
             plans.push(Fault { kind: "hint_coeffs".into(), call, mode: 0, k: 1 + rng.below(1000) });
+        }
+        // every limb of the private input state of the first permutations
+        let (limbs, _) = state_shape(cfg);
+        for call in 0..4usize {
+            for lane in 0..limbs {
+                plans.push(Fault { kind: "free_lane".into(), call, mode: lane as u8, k: 1 + rng.below(order - 1) });
+            }
         }
     } else {
         for call in 0..4usize {
